@@ -187,72 +187,7 @@ func resultsChild(args []string) error {
 	if err != nil {
 		return err
 	}
-	// all packages of the closure, sorted
-	seen := map[string]bool{}
-	var pkgs []gengotypes.Package
-	var walk func(p gengotypes.Package)
-	walk = func(p gengotypes.Package) {
-		if p == nil || seen[p.Pkg().Path()] {
-			return
-		}
-		seen[p.Pkg().Path()] = true
-		pkgs = append(pkgs, p)
-		if onlyLocal {
-			return
-		}
-		for _, ip := range p.Pkg().Imports() {
-			walk(u.Package(ip.Path()))
-		}
-	}
-	for path := range u.LocalPkgPaths() {
-		walk(u.Package(path))
-	}
-	sort.Slice(pkgs, func(i, j int) bool { return pkgs[i].Pkg().Path() < pkgs[j].Pkg().Path() })
-	type unit struct {
-		p  gengotypes.Package
-		fn *types.Func
-	}
-	var units []unit
-	for _, p := range pkgs {
-		scope := p.Pkg().Scope()
-		for _, name := range scope.Names() {
-			switch obj := scope.Lookup(name).(type) {
-			case *types.Func:
-				units = append(units, unit{p, obj})
-			case *types.TypeName:
-				if named, ok := obj.Type().(*types.Named); ok && !obj.IsAlias() {
-					for i := 0; i < named.NumMethods(); i++ {
-						units = append(units, unit{p, named.Method(i)})
-					}
-				}
-			}
-		}
-	}
-	// cross-package units: a function of ANOTHER package, asked of the package that calls it through a selector
-	// (only for the packages of the loaded module itself)
-	crossSeen := map[string]bool{}
-	for path := range u.LocalPkgPaths() {
-		p := u.Package(path)
-		if p == nil {
-			continue
-		}
-		for _, f := range p.Files() {
-			ast.Inspect(f, func(n ast.Node) bool {
-				if sel, ok := n.(*ast.SelectorExpr); ok {
-					if fn, ok := p.ObjectOf(sel.Sel).(*types.Func); ok && fn.Pkg() != nil && fn.Pkg() != p.Pkg() {
-						if sig, ok := fn.Type().(*types.Signature); ok && sig.Recv() == nil {
-							key := path + "<-" + fn.FullName()
-							if !crossSeen[key] {
-								crossSeen[key] = true
-								units = append(units, unit{p, fn})
-							}
-						}
-					}
-				}
-				return true
-			})
-		}
-	}
+	units := resultsUnits(u, onlyLocal)
 	fmt.Fprintf(out, "N %d\n", len(units))
 	first := map[int]string{}
 	for idx := skipTo; idx < len(units); idx++ {
@@ -343,8 +278,107 @@ func resultsChild(args []string) error {
 		}
 	}
 	guard.Stop()
+	if onlyLocal {
+		// third pass: a FRESH universe of the same module, the units asked in the opposite order - an answer may not depend on
+		// what was asked of the universe before it, nor on the order
+		guard := time.AfterFunc(180*time.Second, func() { os.Exit(9) })
+		if u2, err := gengotypes.Load([]string{"./..."}, gengotypes.WithDir(dir)); err == nil {
+			units2 := resultsUnits(u2, onlyLocal)
+			if len(units2) == len(units) {
+				for idx := len(units2) - 1; idx >= skipTo; idx-- {
+					want, ok := first[idx]
+					if !ok {
+						continue
+					}
+					un := units2[idx]
+					same := false
+					core.Try(func() {
+						res, n := un.p.ResultsOf(un.fn)
+						same = fmt.Sprintf("%d %s", n, res.String()) == want
+					})
+					if !same {
+						fmt.Fprintf(out, "R %d\n", idx)
+					}
+				}
+			}
+		}
+		guard.Stop()
+	}
 	fmt.Fprintf(out, "E2\n")
 	return out.Close()
+}
+
+type resUnit struct {
+	p  gengotypes.Package
+	fn *types.Func
+}
+
+// resultsUnits: every function and method of the packages of the closure (or of the module only), in a fixed order, followed
+// by the cross-package units.
+func resultsUnits(u *gengotypes.Universe, onlyLocal bool) []resUnit {
+	// all packages of the closure, sorted
+	seen := map[string]bool{}
+	var pkgs []gengotypes.Package
+	var walk func(p gengotypes.Package)
+	walk = func(p gengotypes.Package) {
+		if p == nil || seen[p.Pkg().Path()] {
+			return
+		}
+		seen[p.Pkg().Path()] = true
+		pkgs = append(pkgs, p)
+		if onlyLocal {
+			return
+		}
+		for _, ip := range p.Pkg().Imports() {
+			walk(u.Package(ip.Path()))
+		}
+	}
+	for path := range u.LocalPkgPaths() {
+		walk(u.Package(path))
+	}
+	sort.Slice(pkgs, func(i, j int) bool { return pkgs[i].Pkg().Path() < pkgs[j].Pkg().Path() })
+	var units []resUnit
+	for _, p := range pkgs {
+		scope := p.Pkg().Scope()
+		for _, name := range scope.Names() {
+			switch obj := scope.Lookup(name).(type) {
+			case *types.Func:
+				units = append(units, resUnit{p, obj})
+			case *types.TypeName:
+				if named, ok := obj.Type().(*types.Named); ok && !obj.IsAlias() {
+					for i := 0; i < named.NumMethods(); i++ {
+						units = append(units, resUnit{p, named.Method(i)})
+					}
+				}
+			}
+		}
+	}
+	// cross-package units: a function of ANOTHER package, asked of the package that calls it through a selector
+	// (only for the packages of the loaded module itself)
+	crossSeen := map[string]bool{}
+	for path := range u.LocalPkgPaths() {
+		p := u.Package(path)
+		if p == nil {
+			continue
+		}
+		for _, f := range p.Files() {
+			ast.Inspect(f, func(n ast.Node) bool {
+				if sel, ok := n.(*ast.SelectorExpr); ok {
+					if fn, ok := p.ObjectOf(sel.Sel).(*types.Func); ok && fn.Pkg() != nil && fn.Pkg() != p.Pkg() {
+						if sig, ok := fn.Type().(*types.Signature); ok && sig.Recv() == nil {
+							key := path + "<-" + fn.FullName()
+							if !crossSeen[key] {
+								crossSeen[key] = true
+								units = append(units, resUnit{p, fn})
+							}
+						}
+					}
+				}
+				return true
+			})
+		}
+	}
+	return units
 }
 
 // ---- parent --------------------------------------------------------------------------------
